@@ -219,6 +219,10 @@ func (c *Channel) ReadUntilFuzzy(ctx context.Context, b []byte) ([]byte, error) 
 // ReadUntilExplicit reads bytes out of the channel Q object until the bytes b are seen in the
 // output. Once the bytes are seen all read bytes are returned.
 func (c *Channel) ReadUntilExplicit(ctx context.Context, b []byte) ([]byte, error) {
+	if len(b) == 0 {
+		return nil, nil
+	}
+
 	var rb []byte
 
 	for {
